@@ -131,7 +131,7 @@ def stored_bool(arg):
 
 
 def r4_oneway(ctx, prog):
-    r = ctx.rule('C02.R4', 'one-way flags: SET/COPY can never store the unprotecting value once the flag is protective', floor=6, engine='E1+E3 finite-domain path enumeration')
+    r = ctx.rule('C02.R4', 'one-way flags: SET/COPY can never store the unprotecting value once the flag is protective', floor=9, engine='E1+E3 finite-domain path enumeration')
     ops = {n: macro(prog, 'OBJECT_OP_' + n) for n in ('COPY', 'CREATE', 'DERIVE', 'GENERATE', 'SET', 'UNWRAP')}
     # (class, attribute, protective current value, forbidden stored value)
     for cls, attr, protective, forbidden in (('P11AttrSensitive', 'CKA_SENSITIVE', 1, False), ('P11AttrExtractable', 'CKA_EXTRACTABLE', 0, True),
@@ -142,12 +142,12 @@ def r4_oneway(ctx, prog):
             continue
         pv, plen, pop = param_name(f, 2), param_name(f, 3), param_name(f, 4)
         for opname in ('SET', 'COPY'):
-            for req in (0, 1):
+            for req in (0, 1, 0xFF):      # 0xFF: a non-canonical CK_BBOOL that reads as true
                 cenv = {pop: ops[opname], '*' + pv: req, plen: 1,
                         re.compile(r'getBooleanValue\(osobject,%s,\w+\)' % attr): protective}
                 o = Outcomes(f, prog, cenv=cenv).go()
                 r.paths += len(o.outcomes)
-                site = '%s op=%s requested=%d' % (attr, opname, req)
+                site = '%s op=%s requested=0x%x' % (attr, opname, req)
                 bad = None
                 for oc in o.outcomes:
                     for e in setattr_events(oc):
